@@ -390,10 +390,10 @@ def json_obligations(tier):
     def circop(t, v, reps, ids):
         fc = cirq.FrozenCircuit((cirq.X ** sympy.Symbol('a')).on(q0), (cirq.Z**t).on(q1), cirq.measure(q0, key='m'))
         r = [1, 2, 3][reps]
-        kw = [dict(), dict(use_repetition_ids=True), dict(use_repetition_ids=False), dict(repetition_ids=[f'r{i}' for i in range(abs(r))]), dict(repetition_ids=[f'r{i}' for i in range(abs(r))], use_repetition_ids=False)][ids]
+        kw = [dict(), dict(use_repetition_ids=True), dict(use_repetition_ids=False), dict(repetition_ids=[f'r{i}' for i in range(abs(r))]), dict(repetition_ids=[f'r{i}' for i in range(abs(r))], use_repetition_ids=False), dict(repetition_ids=[str(i) for i in range(abs(r))], use_repetition_ids=False), dict(repetition_ids=[str(i) for i in range(abs(r))], use_repetition_ids=True)][ids]
         return cirq.CircuitOperation(fc, repetitions=r, param_resolver={'a': v}, qubit_map={q0: q2}, measurement_key_map={'m': 'mm'}, parent_path=('pp',), **kw)
 
-    obs.append(json_ob('CircuitOperation', circop, [lambda o: o.circuit.moments[0].operations[1].gate.exponent, lambda o: o.param_resolver.value_of('a'), 'repetitions', 'repetition_ids', 'use_repetition_ids', 'qubit_map', 'measurement_key_map', 'parent_path'], [t, ('v', -2.0, 2.0)], choices=[('reps', 3), ('ids', 5)], desc='CircuitOperation: symbolic gate exponent inside the sub-circuit and symbolic resolver value; repetitions x repetition_ids/use_repetition_ids combinations enumerated'))
+    obs.append(json_ob('CircuitOperation', circop, [lambda o: o.circuit.moments[0].operations[1].gate.exponent, lambda o: o.param_resolver.value_of('a'), 'repetitions', 'repetition_ids', 'use_repetition_ids', 'qubit_map', 'measurement_key_map', 'parent_path'], [t, ('v', -2.0, 2.0)], choices=[('reps', 3), ('ids', 7)], desc='CircuitOperation: symbolic gate exponent inside the sub-circuit and symbolic resolver value; repetitions x repetition_ids/use_repetition_ids combinations enumerated'))
 
     # ---- study ----------------------------------------------------------------------------------------------
     obs.append(json_ob('Linspace', lambda a, b, n: cirq.Linspace('k', a, b, n), ['key', 'start', 'stop', 'length'], [('a', -3.0, 3.0), ('b', -3.0, 3.0)], ints=[('n', 1, 9)]))
